@@ -12,7 +12,7 @@ import (
 
 // ErrClass names the kind of a goyang error message for signatures.
 func ErrClass(s string) string {
-	for _, k := range []string{"unknown type", "unknown prefix", "Duplicate node", "duplicate key", "unknown group", "augment", "bad range", "bad length", "circular", "no such module", "no such submodule", "identity", "deviat", "not found"} {
+	for _, k := range []string{"unknown type", "unknown prefix", "Duplicate node", "duplicate key", "unknown group", "uses itself", "augment", "bad range", "bad length", "circular", "no such module", "no such submodule", "identity", "deviat", "not found"} {
 		if strings.Contains(s, k) {
 			return strings.ReplaceAll(strings.ToLower(k), " ", "-")
 		}
